@@ -1,11 +1,14 @@
 (* Extract.v - monolithic extraction of the executable models and specs.
    ExtrOcamlBasic only: bool, option, list, prod, unit, sumbool map to
    OCaml's; N, Z, positive and nat stay the extracted inductives. *)
-Require Import PV.Base PV.Dewey PV.DeweySpec.
+Require Import PV.Base PV.Dec PV.Dewey PV.DeweySpec PV.Pattern PV.AltSpec.
 Require Extraction.
 Require Import ExtrOcamlBasic.
 Extraction Language OCaml.
 Extraction "model.ml"
   eqs
   mkv dewey_cmp dewey_new dewey_matches
-  mkv_spec vcmp testc verdict_m verdict_spec.
+  mkv_spec vcmp testc verdict_m verdict_spec letter_conflict
+  print_z parse_i64 parse_u64
+  pattern_new pm glob_new glob_matches quick best2 fuel_for pkgname_new string_step
+  print exp spec_match.
